@@ -60,7 +60,7 @@ contract(MS + 'ClusterParameters.__init__', props=['C13'],
 contract(MS + 'ClusterParameters.member_points', props=['C13'], params=dict(self='obj:ClusterParameters'),
          returns='list[int]', inline=True, ensures=["same(result, self._member_points)"])
 
-contract(MS + 'ClusterParameters.member_points.setter', props=['C13', 'C08', 'C12'],
+contract(MS + 'ClusterParameters.member_points.setter', props=['C13', 'C08', 'C12', 'C09'],
          params=dict(self='obj:ClusterParameters', new_members='list[int]'), ghost={'nullable': ['new_members']},
          assigns=['self._member_points'],
          ensures=["not isnone(self._member_points)",
@@ -148,7 +148,7 @@ def _dd(n):
         "forall(lambda k1, k2: implies(k1 != k2 and not isnone(members[k1]), not same(members[k1], members[k2])))")]
 
 
-contract(MS + 'ModelState._update_cluster_membership', props=['C13', 'C08', 'C12'],
+contract(MS + 'ModelState._update_cluster_membership', props=['C13', 'C08', 'C12', 'C09'],
          params=dict(self='obj:ModelState'),
          requires=["not isnone(self.clusters)", "not isnone(self.arguments)", "len(self.clusters) == self.arguments.num_clusters",
                    "distinct_clusters(self)"],
@@ -165,7 +165,7 @@ contract(MS + 'ModelState._update_cluster_membership', props=['C13', 'C08', 'C12
                         + _dd('len(self._point_labels)'),
                         modifies=['self.clusters[*]._member_points', 'members'])})
 
-contract(MS + 'ModelState.point_labels.setter', props=['C13', 'C08', 'C12'],
+contract(MS + 'ModelState.point_labels.setter', props=['C13', 'C08', 'C12', 'C09'],
          params=dict(self='obj:ModelState', new_labels='list[int]'),
          requires=["not isnone(new_labels)", "not isnone(self.clusters)", "not isnone(self.arguments)",
                    "len(self.clusters) == self.arguments.num_clusters", "distinct_clusters(self)"],
